@@ -23,10 +23,19 @@ def real_clusters(ctx):
 
     pool = [i for i in (quick_instances() if ctx.quick else thorough_instances()) if not i.gpu_tasks and i.outs]
     pick = pool[:: max(1, len(pool) // (4 if ctx.quick else 24))][: (4 if ctx.quick else 24)]
-    base = _free_port_base(len(pick) * 50 + 60)
+    base = _free_port_base(2 * len(pick) * 50 + 60)
 
     def job(ic):
+        name, ob = job1(ic, 0)
+        if ob["outcome"] == "error" and str(ob.get("what", "")).startswith("TypeError:<class 'cascade.executor.msg."):
+            # an executor could not start (a port of its range was taken by another process): once more on another range
+            name, ob = job1(ic, 1)
+            ob["rerun"] = "startup"
+        return name, ob
+
+    def job1(ic, attempt):
         k, inst = ic
+        k = k + attempt * len(pick)
         tag = f"j{os.getpid() % 10000}n{k}"
         ip = ctx.scratch / f"{tag}.pickle"
         pickle.dump(inst, open(ip, "wb"))
